@@ -354,7 +354,8 @@ def check_load_config(ctx, keys):
                 d = c[2].get("**") if isinstance(c[2], dict) else None
                 if isinstance(d, T) and d.op == "dictupdate" and len(d.args) == 2:
                     base, over = rules.unfz(d.args[0]), rules.unfz(d.args[1])
-                    ok = isinstance(base, T) and base.op == "app" and base.args[0] in ("builtins.vars", "vars") and _loads(over) == want and not _loads(base)
+                    ok = isinstance(base, T) and base.op == "app" and base.args[0] in ("builtins.vars", "vars") and not _loads(base) and \
+                        isinstance(over, T) and over.op == "app" and [over.args[0]] == want  # the loaded mapping itself, not a filtered derivative
             R.check("C20.4", "DOM", fl, label + ": the loaded keys are laid over the current attributes and applied through __init__ (unknown keys dropped)", ok,
                     "the loaded dictionary is not applied as __init__(**{current attributes, then file keys}): %s" % [tm.show(c[2].get("**"))[:160] for c in inits if isinstance(c[2], dict)],
                     example="a configuration file holding one known key and one unknown key")
@@ -473,6 +474,11 @@ def check_formats(ctx):
                         example="text input ending with a newline")
                 continue
             txt = strips[0]
+            whole = all((isinstance(t.args[0], T) and ((t.args[0].op == "io" and t.args[0].args[0] == "read" and not rules.unfz(t.args[0].args[2])) or
+                                                      (t.args[0].op == "app" and t.args[0].args[0] == "sys.stdin.read" and not t.args[0].args[1]))) for t in strips)
+            R.check("C20.7", "PROV", fr_, "read_bytes %s from %s converts the whole input (read() to EOF, then strip)" % (fmt, src), whole,
+                    "the text converted by read_bytes(%s) is %s, not the whole input" % (fmt, tm.show(strips[0].args[0])[:100]),
+                    example="hex or bin text preceded by a newline, or spread over several lines")
             for L in (range(0, 131) if ctx.thorough else ((0, 1, 2, 3, 4) if fmt == "hex" else (0, 1, 7, 8, 9, 16))):
                 ev.bind = {tm.length(txt): L}
                 a = dict(ev.assumptions)
